@@ -11,9 +11,9 @@ far. A property set is identified by the JSON-name trail from the root (`seen` h
 more levels inside a JSON-valued parameter are not recorded (they are observable only by a later
 key that walks into the same container, which the harness never generates).
 
-Partial Go operations: `values[0]` on an empty value list, `List.Append` of an invalid value,
-`root.GetProperty` on the nil root that `NewRoot` returns (with a nil error) when schema
-reflection fails.
+Partial Go operations: `values[0]` stays as a `.panic` arm of `queryLeaf`, unreachable from
+`decodeQuery` since 036c15b rejects an empty value list first (`C06_query_no_panic`); the nil
+root (37cbe90) and `List.Append` of an invalid value (1330ca4) are errors now.
 -/
 namespace J5V.Codec
 open J5V.Go J5V.Json
@@ -73,6 +73,17 @@ def camelLoop : Bytes → (first capNext prevIsCap : Bool) → Bytes
 /-- `strcase.ToLowerCamel` -/
 def toLowerCamel (s : Bytes) : Bytes := camelLoop (trimSpace s) true false false
 
+/-- `propertyName(root, part)`: the name as written if the property set has it, else camel-cased -/
+def propertyName (props : List PropDef) (part : Bytes) : Bytes :=
+  if (findProp props part).isSome then part else toLowerCamel part
+
+/-- `queryGoValue`: the text of a query parameter as the Go value handed to `SetGoValue` /
+`AppendGoValue` — `true` / `false` become Go bools for bool fields (and bool array items) -/
+def queryGoValue (k : ScalarKind) (v : Bytes) : GoTok :=
+  if k = .bool then
+    (if v = ascii "true" then .bool true else if v = ascii "false" then .bool false else .str v)
+  else .str v
+
 /-- `strings.Split(s, ".")` -/
 def splitDot : Bytes → List Bytes
   | [] => [[]]
@@ -108,7 +119,7 @@ def queryLeaf (c : Cfg) (props : List PropDef) (p : PropDef) (loc : List Nat) (t
     | _ :: _ :: _ => .err "multiple values provided for non-repeated field"
     | [] => .panic "index out of range [0] with length 0 (values[0])"
     | [v] =>
-      match decodeScalar c.O k (.str v) with
+      match decodeScalar c.O k (queryGoValue k v) with
       | .ok x => .ok (setv x)
       | .err e => .err e
       | .panic w => .panic w
@@ -119,7 +130,7 @@ def queryLeaf (c : Cfg) (props : List PropDef) (p : PropDef) (loc : List Nat) (t
     | [v] =>
       match c.env.find ref with
       | some (.enum pfx opts) =>
-        match optionByName pfx opts v with
+        match enumOptionByName pfx opts v with
         | some n => .ok (setv (some (.enum n)))
         | none => .err "invalid value"
       | _ => .err "enum ref"
@@ -127,9 +138,9 @@ def queryLeaf (c : Cfg) (props : List PropDef) (p : PropDef) (loc : List Nat) (t
     let r : Outcome (List PVal) := values.foldl (fun acc v =>
       match acc with
       | .ok l =>
-        match decodeScalar c.O k (.str v) with
+        match decodeScalar c.O k (queryGoValue k v) with
         | .ok (some pv) => .ok (l ++ [pv])
-        | .ok none => .panic "protoreflect.List.Append: invalid value"
+        | .ok none => .err "cannot append a nil value"
         | .err e => .err e
         | .panic w => .panic w
       | other => other) (.ok [])
@@ -143,7 +154,7 @@ def queryLeaf (c : Cfg) (props : List PropDef) (p : PropDef) (loc : List Nat) (t
       let r : Outcome (List PVal) := values.foldl (fun acc v =>
         match acc with
         | .ok l =>
-          match optionByName pfx opts v with
+          match enumOptionByName pfx opts v with
           | some n => .ok (l ++ [.enum n])
           | none => .err "invalid value"
         | other => other) (.ok [])
@@ -225,12 +236,25 @@ def qCreate (p : PropDef) (trail : List Bytes) (st : QS) : Outcome QS :=
     | _, .map (.any _) => .err "unsupported schema type"
     | _, _ => .ok { st with seen := (trail ++ [p.jsonName]) :: st.seen }
 
+/-- one step of `propertyAtPath` into the container property `p`: `prop.Field()` if it is set,
+else `prop.CreateField()` (whose `Mutable` walk creates the container message) -/
+def qEnter (props : List PropDef) (p : PropDef) (loc : List Nat) (trail : List Bytes) (st : QS) :
+    Outcome QS :=
+  if st.seen.contains (trail ++ [p.jsonName]) then .ok st
+  else
+    (qCreate p trail st).bind fun s =>
+      if p.path.isEmpty then .ok s
+      else if p.field.mutable then
+        .ok { s with m := updAt loc (fun m =>
+                updPath props p (some (.msg (PVal.asMsg (getPath m p.path)))) m) s.m }
+      else .ok s
+
 /-- `propertyAtPath` followed by the body of the `for key, values` loop -/
 def queryKey (c : Cfg) : List Bytes → List PropDef → List Nat → List Bytes → List Bytes → QS →
     Outcome QS
   | [], _, _, _, _, _ => .err "empty path"   -- `strings.Split` never returns an empty slice
   | [tail], props, loc, trail, values, st =>
-    match findProp props (toLowerCamel tail) with
+    match findProp props (propertyName props tail) with
     | none => .err "no property"
     | some p =>
       match qCreate p trail st with
@@ -238,23 +262,11 @@ def queryKey (c : Cfg) : List Bytes → List PropDef → List Nat → List Bytes
       | .err e => .err e
       | .panic w => .panic w
   | part :: rest, props, loc, trail, values, st =>
-    match findProp props (toLowerCamel part) with
+    match findProp props (propertyName props part) with
     | none => .err "unknown property"
     | some p =>
       let trail' := trail ++ [p.jsonName]
-      let st1 : Outcome QS :=
-        if st.seen.contains trail' then .ok st
-        else
-          match qCreate p trail st with
-          | .ok s =>
-            -- `Mutable` walk: the container message exists from now on
-            if p.path.isEmpty then .ok s
-            else if p.field.mutable then
-              .ok { s with m := updAt loc (fun m =>
-                      updPath props p (some (.msg (PVal.asMsg (getPath m p.path)))) m) s.m }
-            else .ok s
-          | other => other
-      match st1 with
+      match qEnter props p loc trail st with
       | .ok s =>
         match p.field with
         | .object ref =>
@@ -275,14 +287,14 @@ def decodeQuery (c : Cfg) (root : String) (kvs : List (Bytes × List Bytes)) : O
   | some (.object props) | some (.oneof props) =>
     let r : Outcome QS := kvs.foldl (fun (acc : Outcome QS) kv =>
       match acc with
-      | .ok st => queryKey c (splitDot kv.1) props [] [] kv.2 st
+      | .ok st =>
+        if kv.2.isEmpty then .err "no value provided for field"
+        else queryKey c (splitDot kv.1) props [] [] kv.2 st
       | other => other) (.ok { m := [], seen := [] })
     match r with
     | .ok st => .ok st.m
     | .err e => .err e
     | .panic w => .panic w
-  | _ =>
-    -- `NewRoot` returned `nil, nil`
-    if kvs.isEmpty then .ok [] else .panic "nil pointer dereference (root.GetProperty)"
+  | _ => .err "NewRoot: no schema"
 
 end J5V.Codec
